@@ -139,18 +139,21 @@ def _eval_shard(args):
 def coq_eval(pid, prelude, check_fn, case_terms, shard=300, tag="c", case_type=None):
     """Evaluate `check_fn case` in Coq (vm_compute) for each term; returns
     (list of (index, code) with code != 0, log-of-failed-shards)."""
-    os.makedirs(GEN, exist_ok=True)
-    for f in os.listdir(GEN):
+    # one directory per process: concurrent runs of the same check (e.g. against a
+    # scratch tree) must not delete each other's case files
+    gen = os.path.join(GEN, f"{pid}_{os.getpid()}")
+    os.makedirs(gen, exist_ok=True)
+    for f in os.listdir(gen):
         if f.startswith(f"{pid}_{tag}_"):
-            os.remove(os.path.join(GEN, f))
+            os.remove(os.path.join(gen, f))
     paths, offsets = [], []
     for k in range(0, len(case_terms), shard):
-        path = os.path.join(GEN, f"{pid}_{tag}_{k // shard}.v")
+        path = os.path.join(gen, f"{pid}_{tag}_{k // shard}.v")
         with open(path, "w") as fh:
             fh.write(prelude + "\n")
             fh.write("Definition cases" + (f" : list ({case_type})" if case_type else "") + " := [\n" + ";\n".join(case_terms[k:k + shard]) + "\n].\n")
             fh.write(f"Definition result := Eval vm_compute in (failing (map {check_fn} cases)).\n")
-            fh.write("Print result.\n")
+            fh.write("Set Printing Width 1000000.\nPrint result.\n")
         paths.append(path)
         offsets.append(k)
     bad, logs = [], []
@@ -165,9 +168,9 @@ def coq_eval(pid, prelude, check_fn, case_terms, shard=300, tag="c", case_type=N
                 continue
             for a, b in re.findall(r"\(\s*(\d+)%?n?a?t?,\s*(\d+)%?n?a?t?\s*\)", m.group(1)):
                 bad.append((off + int(a), int(b)))
-    for f in os.listdir(GEN):
-        if f.startswith(f"{pid}_{tag}_") and not f.endswith(".v"):
-            os.remove(os.path.join(GEN, f))
+    import shutil
+    if not logs:
+        shutil.rmtree(gen, ignore_errors=True)
     return bad, logs
 
 
